@@ -4,6 +4,7 @@ C05 — Loading and re-writing a RapidPro export is lossless.
 import Rpft.Lemmas.Reorder
 import Rpft.DocumentWitness
 import Rpft.Gen.Tables
+import Rpft.Canon
 set_option linter.unusedSimpArgs false
 set_option linter.unusedVariables false
 namespace Rpft.Props.C05
@@ -22,11 +23,12 @@ def passThroughTypes : List Str :=
 /-- T1: `action_map` of actions.py (regenerated each run): its pass-through classes
 (`DefaultRenderedAction` and subclasses that do not override `render`) are exactly the types
 the model passes through, all others are the model's records; the router test tables of
-routers.py are the model's. -/
+routers.py are the model's.  All four are sets (read off the behaviour of the code by
+`harness/tables/t05_actions.py`): compared up to order. -/
 theorem tables_agree :
-    Gen.actionPassThrough = passThroughTypes ∧
-    Gen.actionTypes.filter (fun t => !Gen.actionPassThrough.contains t) = specialTypes ∧
-    Gen.routerTests = routerTests ∧ Gen.routerNoArgTests = noArgTests ∧
+    Canon.sameSet Gen.actionPassThrough passThroughTypes ∧
+    Canon.sameSet (Gen.actionTypes.filter (fun t => !Gen.actionPassThrough.contains t)) specialTypes ∧
+    Canon.sameSet Gen.routerTests routerTests ∧ Canon.sameSet Gen.routerNoArgTests noArgTests ∧
     Gen.contactFieldTypeBug = fieldTypeBug := by decide
 
 /-! ### the round trip is lossless -/
